@@ -56,16 +56,18 @@ func newRefKey() (priv, pub [32]byte) {
 	return
 }
 
-// newRefSTS picks an ephemeral key that sorts below (lower=true) or above the peer's.
+// newRefSTS picks an ephemeral key that sorts below (lower=true) or above the peer's; nil when the
+// peer's key is so close to the end of the range that 400 draws do not produce one (the caller then
+// starts the session afresh: the peer draws a new key).
 func newRefSTS(peerEph []byte, lower bool) *refSTS {
 	e := &refSTS{}
-	for i := 0; i < 200; i++ {
+	for i := 0; i < 400; i++ {
 		e.ephPriv, e.ephPub = newRefKey()
 		if (bytes.Compare(e.ephPub[:], peerEph) < 0) == lower {
 			return e
 		}
 	}
-	panic(fmt.Sprintf("harness: no ephemeral key with the wanted order in 200 draws peer=%x lower=%v mine=%x", peerEph, lower, e.ephPub))
+	return nil
 }
 
 func ephMsg(pub []byte) []byte {
@@ -254,7 +256,13 @@ func startEvil(victim func(c net.Conn) victimResult, lower bool, eph []byte) (*e
 		s.p.ab.feed(ephMsg(eph))
 		return fail()
 	}
-	s.e = newRefSTS(v, lower)
+	if s.e = newRefSTS(v, lower); s.e == nil {
+		// wanted key order not reachable against this key: let this victim run stall, take a new one
+		fail()
+		s.close()
+		r.Add("evil_sessions_restarted_for_key_order", 1)
+		return startEvil(victim, lower, eph)
+	}
 	s.p.ab.feed(ephMsg(s.e.ephPub[:]))
 	// 2. having read ours, the victim sends its auth frame unconditionally
 	if !s.p.ba.waitUnits(2) {
@@ -358,8 +366,11 @@ func runEvil(sp evilSpec) (fs []finding, outcome string) {
 		pt := lowOrderPoints[sp.Param]
 		var probe [32]byte
 		probe[0] = 9
-		if _, err := curve25519.X25519(probe[:], pt[:]); err == nil {
-			r.Add("info_listed_low_order_point_not_rejected_by_reference_x25519", 1)
+		_, refErr := curve25519.X25519(probe[:], pt[:])
+		if refErr == nil {
+			// 5 of the 12 classic blacklist entries are low-order only for implementations that do not
+			// mask bit 255 (RFC 7748 masks it); for this library they are ordinary points
+			r.Add("info_blacklist_entries_that_are_ordinary_points_after_bit_255_masking", 1)
 		}
 		s, res := startEvil(handshakeVictim(keyV), false, pt[:])
 		defer s.close()
@@ -368,8 +379,10 @@ func runEvil(sp evilSpec) (fs []finding, outcome string) {
 		}
 		out := mustReject(*res, nil)
 		if errClass(res.err) == "stall" {
-			r.Add("info_low_order_key_not_rejected_at_key_exchange_victim_only_stalled", 1)
 			out = "stalled"
+			if refErr != nil {
+				r.Add("info_low_order_key_not_rejected_at_key_exchange_victim_only_stalled", 1)
+			}
 		} else if !res.ok() {
 			r.Add("low_order_key_rejected_with_error", 1)
 		}
